@@ -33,7 +33,7 @@ type Mix struct {
 	Rot   int    `json:"rot"`
 }
 
-const NumMixValues = 14
+const NumMixValues = 18
 
 func putMixValue(m pcommon.Map, j int) {
 	switch j % NumMixValues {
@@ -65,6 +65,15 @@ func putMixValue(m pcommon.Map, j int) {
 		m.PutEmptyMap("k").PutInt("x", 1)
 	case 13:
 		m.PutEmptySlice("k")
+	// containers that differ only by a nested empty byte string vs an unset value (both decode as unset)
+	case 14:
+		m.PutEmptySlice("k").AppendEmpty().SetEmptyBytes()
+	case 15:
+		m.PutEmptySlice("k").AppendEmpty()
+	case 16:
+		m.PutEmptyMap("k").PutEmptyBytes("x")
+	case 17:
+		m.PutEmptyMap("k").PutEmpty("x")
 	}
 }
 
@@ -288,7 +297,7 @@ func sid(b byte) pcommon.SpanID {
 
 // ---- spans -------------------------------------------------------------------
 
-const NumSpan = 29
+const NumSpan = 31
 
 func fillSpan(i int, sp ptrace.Span) {
 	if i >= WildBase {
@@ -431,6 +440,38 @@ func fillSpan(i int, sp ptrace.Span) {
 			fillAttrs(7, l.Attributes())
 		}
 		fillAttrs(7, sp.Attributes())
+	case 29: // numeric extremes: every unsigned field at its maximum, timestamps with the high bit
+		sp.SetStartTimestamp(pcommon.Timestamp(1 << 63))
+		sp.SetEndTimestamp(pcommon.Timestamp(math.MaxUint64))
+		sp.SetDroppedAttributesCount(math.MaxUint32)
+		sp.SetDroppedEventsCount(math.MaxUint32)
+		sp.SetDroppedLinksCount(math.MaxUint32)
+		sp.SetFlags(math.MaxUint32)
+		sp.SetKind(ptrace.SpanKindConsumer)
+		sp.Status().SetCode(ptrace.StatusCodeError)
+		sp.Attributes().PutInt("imin", math.MinInt64)
+		sp.Attributes().PutInt("imax", math.MaxInt64)
+		sp.Attributes().PutDouble("dinf", math.Inf(1))
+		sp.Attributes().PutDouble("dninf", math.Inf(-1))
+		sp.Attributes().PutDouble("dmax", math.MaxFloat64)
+		sp.Attributes().PutDouble("dtiny", math.SmallestNonzeroFloat64)
+		e := sp.Events().AppendEmpty()
+		e.SetName("e")
+		e.SetTimestamp(pcommon.Timestamp(1<<63 + 5))
+		e.SetDroppedAttributesCount(math.MaxUint32)
+		e = sp.Events().AppendEmpty()
+		e.SetName("e")
+		e.SetTimestamp(pcommon.Timestamp(math.MaxUint64))
+		l := sp.Links().AppendEmpty()
+		l.SetTraceID(tid(7))
+		l.SetFlags(math.MaxUint32)
+		l.SetDroppedAttributesCount(math.MaxUint32)
+	case 30: // invalid UTF-8 in names and attribute values (pdata does not validate)
+		sp.SetName("n\xff\xfe")
+		sp.Attributes().PutStr("k", "\xe9t\xe9")
+		sp.Attributes().PutStr("t", "abc\xe2\x82")
+		sp.Events().AppendEmpty().Attributes().PutStr("k", "\xc3")
+		sp.Links().AppendEmpty().Attributes().PutStr("k", "\xf0\x9f")
 	case 25: // three links, each with the same single attribute
 		sp.SetSpanID(sid(7))
 		for k := 0; k < 3; k++ {
@@ -620,7 +661,7 @@ func rampTraces(td ptrace.Traces, r *Ramp) {
 
 // ---- logs ----------------------------------------------------------------------
 
-const NumLog = 26
+const NumLog = 28
 
 func fillLog(i int, lr plog.LogRecord) {
 	if i >= WildBase {
@@ -701,6 +742,23 @@ func fillLog(i int, lr plog.LogRecord) {
 		fillAttrs(11, lr.Attributes())
 	case 24:
 		fillAttrs(10, lr.Attributes())
+	case 26: // numeric extremes
+		lr.SetTimestamp(pcommon.Timestamp(math.MaxUint64))
+		lr.SetObservedTimestamp(pcommon.Timestamp(1 << 63))
+		lr.SetDroppedAttributesCount(math.MaxUint32)
+		lr.SetFlags(plog.LogRecordFlags(math.MaxUint32))
+		lr.SetSeverityNumber(plog.SeverityNumber(math.MaxInt32))
+		lr.Body().SetInt(math.MinInt64)
+		lr.Attributes().PutInt("imin", math.MinInt64)
+		lr.Attributes().PutInt("imax", math.MaxInt64)
+		lr.Attributes().PutDouble("dinf", math.Inf(1))
+		lr.Attributes().PutDouble("dninf", math.Inf(-1))
+		lr.Attributes().PutDouble("dmax", math.MaxFloat64)
+	case 27: // invalid UTF-8 in body, severity text and attribute values
+		lr.Body().SetStr("b\xff")
+		lr.SetSeverityText("\xfe")
+		lr.Attributes().PutStr("k", "\xe9t\xe9")
+		lr.Attributes().PutStr("t", "abc\xe2\x82")
 	case 23: // negative numbers
 		lr.Body().SetDouble(-1.5)
 		lr.Attributes().PutInt("n", -7)
@@ -819,7 +877,7 @@ func (l Letter) BuildLogs() plog.Logs {
 
 // ---- metrics ---------------------------------------------------------------------
 
-const NumMetric = 56
+const NumMetric = 59
 
 func exemplar(e pmetric.Exemplar, kind int) {
 	switch kind {
@@ -1180,6 +1238,52 @@ func fillMetric(i int, m pmetric.Metric) {
 		dp = g.DataPoints().AppendEmpty()
 		dp.SetIntValue(-3)
 		dp.Exemplars().AppendEmpty().SetIntValue(-4)
+	case 56: // numeric extremes on number points and their exemplars
+		g := m.SetEmptySum()
+		g.SetAggregationTemporality(pmetric.AggregationTemporalityDelta)
+		dp := g.DataPoints().AppendEmpty()
+		dp.SetStartTimestamp(pcommon.Timestamp(1 << 63))
+		dp.SetTimestamp(pcommon.Timestamp(math.MaxUint64))
+		dp.SetFlags(pmetric.DataPointFlags(math.MaxUint32))
+		dp.SetIntValue(math.MinInt64)
+		e := dp.Exemplars().AppendEmpty()
+		e.SetTimestamp(pcommon.Timestamp(math.MaxUint64))
+		e.SetIntValue(math.MaxInt64)
+		dp = g.DataPoints().AppendEmpty()
+		dp.SetDoubleValue(math.Inf(-1))
+		dp.SetTimestamp(pcommon.Timestamp(1<<63 + 1))
+		e = dp.Exemplars().AppendEmpty()
+		e.SetDoubleValue(math.Inf(1))
+		e.SetTimestamp(pcommon.Timestamp(1 << 63))
+	case 57: // numeric extremes on histograms, exponential histograms are in 58
+		dp := m.SetEmptyHistogram().DataPoints().AppendEmpty()
+		dp.SetStartTimestamp(pcommon.Timestamp(math.MaxUint64))
+		dp.SetTimestamp(pcommon.Timestamp(1 << 63))
+		dp.SetCount(math.MaxUint64)
+		dp.BucketCounts().FromRaw([]uint64{math.MaxUint64, 0, 1 << 63})
+		dp.ExplicitBounds().FromRaw([]float64{math.Inf(-1), math.MaxFloat64})
+		dp.SetSum(math.Inf(1))
+		dp.SetMin(math.Inf(-1))
+		dp.SetMax(math.MaxFloat64)
+		dp.SetFlags(pmetric.DataPointFlags(math.MaxUint32))
+		sdp := m.Histogram().DataPoints().AppendEmpty()
+		sdp.SetCount(1 << 63)
+	case 58:
+		dp := m.SetEmptyExponentialHistogram().DataPoints().AppendEmpty()
+		dp.SetTimestamp(pcommon.Timestamp(math.MaxUint64))
+		dp.SetCount(math.MaxUint64)
+		dp.SetZeroCount(math.MaxUint64)
+		dp.SetScale(math.MinInt32)
+		dp.Positive().SetOffset(math.MaxInt32)
+		dp.Positive().BucketCounts().FromRaw([]uint64{math.MaxUint64})
+		dp.Negative().SetOffset(math.MinInt32)
+		dp.Negative().BucketCounts().FromRaw([]uint64{1 << 63, 1})
+		dp.SetSum(math.Inf(-1))
+		dp = m.ExponentialHistogram().DataPoints().AppendEmpty()
+		dp.SetScale(math.MaxInt32)
+		sm := dp.Exemplars().AppendEmpty()
+		sm.SetTimestamp(pcommon.Timestamp(1 << 63))
+		sm.SetDoubleValue(math.MaxFloat64)
 	case 41: // histogram points with equal single attribute and exemplars with equal single attribute
 		h := m.SetEmptyHistogram()
 		for k := 0; k < 3; k++ {
